@@ -12137,8 +12137,12 @@ C_<TN_, TA_, SG_, TH_, TS_...>::deepExit(PlanControl& control) noexcept {
 
 	Prong& resumable = compoResumable(control);
 
-	SubStates::wideExit(control, active);
-	HeadState::deepExit(control);
+	{
+		ScopedRegion region{control, REGION_ID, HEAD_ID, REGION_SIZE};
+
+		SubStates::wideExit(control, active);
+		HeadState::deepExit(control);
+	}
 
 	resumable = active;
 	active	  = INVALID_PRONG;
@@ -14202,6 +14206,8 @@ template <typename TN_, typename TA_, typename TH_, typename... TS_>
 HFSM2_CONSTEXPR(14)
 void
 O_<TN_, TA_, TH_, TS_...>::deepExit(PlanControl& control) noexcept {
+	ScopedRegion region{control, REGION_ID, HEAD_ID, REGION_SIZE};
+
 	SubStates::wideExit(control);
 	HeadState::deepExit(control);
 }
